@@ -26,6 +26,8 @@ def check(run, tier):
     progs = targeted.worklist_programs("evo") + targeted.worklist_programs("fluent")
     progs += targeted.round2_programs("evo") + targeted.round2_programs("fluent")
     progs += targeted.config_programs("evo") + targeted.config_programs("fluent")
+    from ..drivers import files
+    progs += [p for dev in ("evo", "fluent") for p in files.targeted_programs(dev) if "latin1" in p["id"] or "with-" in p["id"]]
     progs += targeted.rounding_programs("evo", r) + targeted.rounding_programs("fluent", r)
     n = 150 if q else 3000
     for i in range(n):
